@@ -119,6 +119,9 @@ def run(case, ctx):
     for it in ("SEMANTIC", "UNMATCHED_INSTANCE", "MATCHED_INSTANCE"):
         for name, sc, pred, refa, extra in scenario_inputs(i, it, case.get("ndim", 1 + i % 3)):
             metrics = [m for m in METRICS if m != "clDSC" or refa.ndim >= 2]
+            if name == "decision_rejects_all" and (i + RES.index(std)) % 2:
+                metrics = [extra["dm"]]  # the decision metric is the only evaluated instance metric
+                ctx.count("f:decision_metric_is_only_metric")
             cfg = {
                 "input": it, "backend": [None, "cc3d", "scipy"][i % 3], "metrics": metrics,
                 "matcher": None if it == "MATCHED_INSTANCE" else {"kind": ["naive", "merge"][i % 2], "metric": "IOU", "thr": extra.get("thr", 0.5)},
